@@ -250,6 +250,7 @@ func (w *World) verifyUnit(fn *ssa.Function, defaultSafety []string) *UnitResult
 	}
 	h := newHeap()
 	var args []Val
+	var inputs []string
 	for _, prm := range fn.Params {
 		av := e.havocVal("arg."+prm.Name(), prm.Type())
 		switch v := av.(type) {
@@ -260,13 +261,31 @@ func (w *World) verifyUnit(fn *ssa.Function, defaultSafety []string) *UnitResult
 			}
 		case SliceV:
 			e.assume(fmt.Sprintf("(<= %s pre)", v.B))
+			es := w.sizes.Sizeof(under(prm.Type()).(*types.Slice).Elem())
+			if es < 1 {
+				es = 1
+			}
+			inputs = append(inputs, fmt.Sprintf("(* %d %s)", es, v.L))
 		case Sc:
 			if sortOf(prm.Type()) == "Int" && !isInt(prm.Type()) {
 				e.assume(fmt.Sprintf("(<= %s pre)", v.T))
+				if con == nil {
+					// implicit contract of an uncontracted function: interface and function parameters are non-nil
+					switch under(prm.Type()).(type) {
+					case *types.Interface, *types.Signature:
+						e.assume(fmt.Sprintf("(> %s 0)", v.T))
+					}
+				}
+			}
+			if isStr(prm.Type()) {
+				inputs = append(inputs, fmt.Sprintf("(slen %s)", v.T))
 			}
 		}
 		args = append(args, av)
 		e.modelVars = append(e.modelVars, modelVarsOf(prm.Name(), av)...)
+	}
+	if len(inputs) > 0 {
+		e.inputBytes = "(+ 0 " + strings.Join(inputs, " ") + ")"
 	}
 	// frame for evaluating requires before execution
 	f0 := &frame{e: e, fn: fn, vals: map[ssa.Value]Val{}, pcs: map[*ssa.BasicBlock]string{}, entry: h, args: args, con: con, tags: tags, safety: safety}
@@ -294,9 +313,15 @@ func (w *World) verifyUnit(fn *ssa.Function, defaultSafety []string) *UnitResult
 		env.old = fr.entry
 		resultEnv(env, fn.Signature, rets)
 		for _, c := range con.Ensures {
-			t := e.evalBool(env, c.Expr)
-			e.ob(fr, "post", c.label(), c.tagsOr(tags), rpc, t, fn.Pos())
+			ts, ls := e.conjuncts(env, c.Expr, "")
+			for i := range ts {
+				e.ob(fr, "post", c.clabel(ls[i]), c.tagsOr(tags), rpc, ts[i], fn.Pos())
+			}
 		}
+	}
+	if con != nil && len(con.Touches) > 0 && rpc != "false" {
+		// frame: of the struct types of the touched objects, only those objects changed (among pre-existing ones)
+		fr.frameObs("frame", rpc, fr.entry, rh, fn.Pos())
 	}
 	res := &UnitResult{Fn: fn, Key: funcKey(fn), Pkg: w.pkgOf(fn).Pkg.Name(), Obs: e.obs, Unsupp: e.unsupp, Unmod: e.unmod, Inlined: e.inlined,
 		Trusted: e.trusted, Imprecise: e.imprecise, SpecErrs: e.specErrs, HasCon: con != nil, engine: e}
